@@ -54,7 +54,7 @@ Silent ==
        \/ (SyncRun /\ UNCHANGED dropping)
        \/ (MergeSeesShutdown /\ UNCHANGED dropping)
        \/ (SyncSeesShutdown /\ UNCHANGED dropping)
-       \/ (dropping = "started" /\ (DropStore \/ DropSender) /\ UNCHANGED dropping)
+       \/ (dropping = "started" /\ (DropStore \/ DropWaitsForWriter \/ DropSender) /\ UNCHANGED dropping)
 
 \* next scenario: a fresh store
 NextScenario ==
@@ -65,7 +65,7 @@ NextScenario ==
     /\ mt' \in (IF Policy = "never" THEN {Done} ELSE {[st |-> "sleep", wake |-> d, from |-> 0] : d \in (I - J)..(I + J)})
     /\ stt' = IF S = 0 THEN Done ELSE [st |-> "sleep", wake |-> S, from |-> 0]
     /\ exited' = FALSE /\ trig' = FALSE /\ crossed' = -1 /\ merges' = 0 /\ spurious' = FALSE
-    /\ lastSync' = 0 /\ effects' = 0 /\ lateWork' = 0 /\ dropTime' = -1 /\ lastEnd' = 0
+    /\ lastSync' = 0 /\ effects' = 0 /\ lateWork' = 0 /\ dropTime' = -1 /\ waited' = FALSE /\ lastEnd' = 0
 
 TNext == EvMergeWoke \/ EvMergeTriggered \/ EvMergeSelected \/ EvSyncWoke \/ EvExit \/ EvDrop \/ EvDropped
          \/ Silent \/ NextScenario
